@@ -70,7 +70,30 @@ func mutate(r *core.Rand, cmd [][]byte) ([]byte, string) {
 	for attempt := 0; attempt < 20; attempt++ {
 		var out []byte
 		kind := ""
-		switch r.Intn(14) {
+		switch r.Intn(16) {
+		case 14, 15:
+			// exactly one of the two bytes that close a bulk payload is wrong (first,
+			// middle or last argument): a check that accepts "either byte right" passes it
+			kind = "half-bulk-terminator"
+			ai := r.Intn(len(cmd))
+			off := len(fmt.Sprintf("*%d\r\n", len(cmd)))
+			for j := 0; j <= ai; j++ {
+				off += len(fmt.Sprintf("$%d\r\n", len(cmd[j]))) + len(cmd[j])
+				if j < ai {
+					off += 2
+				}
+			}
+			out = append([]byte{}, enc...)
+			switch r.Intn(4) {
+			case 0:
+				out[off] = pick(r, []byte{'X', '\n', 0, ' '})
+			case 1:
+				out[off+1] = pick(r, []byte{'X', '\r', 0, ' '})
+			case 2:
+				out[off], out[off+1] = '\n', '\n'
+			case 3:
+				out[off], out[off+1] = '\r', '\r'
+			}
 		case 12, 13:
 			// the declared length is shorter than the payload, and the payload carries
 			// a complete command behind a CRLF: a server that resynchronises after the
